@@ -372,6 +372,11 @@ impl MainEvent {
             }
         }
 
+        // Same as with the wires, a pad signal is only stored if it is not empty
+        // after removing the delay samples. The chunk groups are visited in an
+        // arbitrary order, so keep track of the pads already seen to detect
+        // duplicates regardless of that order.
+        let mut pad_seen = [[false; TPC_PAD_ROWS]; TPC_PAD_COLUMNS];
         for chunks in pwb_chunks_map.into_values() {
             let packet = PwbPacket::try_from(chunks)?;
             let board_id = packet.board_id();
@@ -388,11 +393,12 @@ impl MainEvent {
                         usize::from(pad_position.column),
                         usize::from(pad_position.row),
                     );
-                    if pad_signals[pad_index.0][pad_index.1].is_some() {
+                    if pad_seen[pad_index.0][pad_index.1] {
                         return Err(TryMainEventFromDataBanksError::DuplicatePadSignal {
                             position: pad_position,
                         });
                     } else {
+                        pad_seen[pad_index.0][pad_index.1] = true;
                         let baseline = try_pad_baseline(run_number, pad_position)?;
                         let gain = try_pad_gain(run_number, pad_position)?;
                         let delay = try_pad_delay(run_number)?;
